@@ -305,10 +305,6 @@ Definition in_domain (c : acase) : bool :=
 Definition final_model (c : acase) : astate := fst (fst (arun (abase c) (ah_ops c) [])).
 Definition ispace (c : acase) (x : sp) : list item * list (N * N) :=
   match index_space (get_sp (a_m (final_model c)) x) with Ok r => r | Panic _ => ([], []) end.
-(* D03: a live global export whose target moves (global exports are copied) *)
-Definition known_D03 (c : acase) : bool :=
-  existsb (fun e => negb (ex_del e) && N.eqb (ex_kind e) 1 && negb (optN_eqb (lookup (snd (ispace c SG)) (ex_idx e)) (Some (ex_idx e))))
-          (a_exports (final_model c)).
 (* D06: an import added after parsing and then deleted stays in the index space *)
 Definition known_D06 (c : acase) : bool :=
   existsb (fun x => let s := get_sp (a_m (final_model c)) x in
@@ -330,7 +326,7 @@ Definition cls (c : acase) (l : list (N * (acase -> bool))) : list N :=
   flat_map (fun kp : N * (acase -> bool) => if snd kp c then [fst kp] else []) l.
 
 Definition verdict30 (c : acase) : Util.verdict :=
-  (agree c, in_domain c, holds c, cls c [K 3 known_D03; K 6 known_D06; K 24 known_D24; K 300 known_300]).
+  (agree c, in_domain c, holds c, cls c [K 6 known_D06; K 24 known_D24; K 300 known_300]).
 Definition report_C30 := run_report verdict30.
 
 (* ------------------------------------------------------------------------------------------ *)
